@@ -42,7 +42,7 @@ def whole(x, what, scale=1):
     if x != x or abs(x * scale) >= 2 ** 31 - 1:
         raise OutOfDomain("%s outside the model's domain: %r" % (what, x))
     r = round(x * scale)
-    if abs(r - x * scale) > 1e-3:       # float32 metadata: 60.6 is 60.59999847
+    if abs(r - x * scale) > (0.05 if scale > 1 else 1e-3):       # float32 metadata: 60.6 is 60.59999847, 59.9423 is 59.94229889
         raise OutOfDomain("%s is not a multiple of 1/%d: %r" % (what, scale, x))
     return int(r)
 
